@@ -38,22 +38,21 @@ Fixpoint no_edits (ops : list op) (e : Z) : Prop :=
   | _ :: _ => False
   end.
 
-Lemma no_edits_hist_ok zp : forall ops p c e,
+Lemma no_edits_hist_ok : forall ops p c e,
   no_edits ops e -> 0 <= c ->
   p_factors p = p_factors gen_default_params -> p_epp p = p_epp gen_default_params -> p_max p = p_max gen_default_params ->
   p_staking p = p_staking gen_default_params -> p_community p = p_community gen_default_params ->
   p_strategic p = p_strategic gen_default_params ->
-  hist_ok zp (p_epp gen_default_params) (p_max gen_default_params) p c e ops.
+  hist_ok (p_epp gen_default_params) (p_max gen_default_params) p c e ops.
 Proof.
   induction ops as [|o r IH]; intros p c e Hn Hc F1 F2 F3 F4 F5 F6; [exact I|].
   destruct o as [[|] e'|auth b|auth ed|amt]; cbn [no_edits hist_ok next_params] in *; try contradiction.
   - destruct Hn as [-> [He Hr]]. split; [reflexivity|]. split; [exact He|]. split.
     + intros _. split.
-      * apply poly_ok_prov_ok; [|rewrite F2; vm_compute; reflexivity|exact Hc].
-        assert (U : poly_unit p).
-        { intros per Hper. unfold poly_provision, polynomial. rewrite F1, F2.
-          rewrite F3 in Hper. apply (C13_default_polynomial_unit per Hper). }
-        destruct zp; [exact U|apply poly_unit_pos; exact U].
+      * apply poly_pos_prov_ok; [|rewrite F2; vm_compute; reflexivity|exact Hc].
+        apply poly_unit_pos.
+        intros per Hper. unfold poly_provision, polynomial. rewrite F1, F2.
+        rewrite F3 in Hper. apply (C13_default_polynomial_unit per Hper).
       * unfold dist_ok. rewrite F4, F5, F6. vm_compute. repeat split; discriminate.
     + apply IH; auto. destruct (p_enabled p); lia.
   - split; [exact F2|]. split; [exact F3|]. apply IH; auto.
@@ -61,13 +60,13 @@ Proof.
 Qed.
 
 Theorem C13_default_chain_follows_schedule :
-  forall (zp : bool) (ops : list op),
+  forall (ops : list op),
     no_edits ops 1 ->
-    map view_of (snd (run zp gen_genesis ops)) = snd (spec_run {| q_params := gen_default_params; q_c := 0 |} ops).
+    map view_of (snd (run false gen_genesis ops)) = snd (spec_run {| q_params := gen_default_params; q_c := 0 |} ops).
 Proof.
-  intros zp ops Hn.
+  intros ops Hn.
   destruct C13_default_genesis_consistent as [_ [Hc [_ [Hs Hk]]]].
-  pose proof (C13_period_tracks_schedule zp ops gen_genesis 1 Hc eq_refl Hk Hs) as T.
+  pose proof (C13_period_tracks_schedule ops gen_genesis 1 Hc eq_refl Hk Hs) as T.
   cbv zeta in T. apply T.
   apply no_edits_hist_ok; auto; vm_compute; discriminate.
 Qed.
